@@ -186,6 +186,22 @@ static void fill_buf(rng_t* r, const bufspec_t* b, void* p, size_t bytes) {
       static const size_t PER[] = {2, 3, 4, 8};
       const size_t per = PER[(t >> 8) & 3];
       for (size_t i = per; i < nw; i++) w[i] = w[i - per];
+    } else if (nw >= 2 && (t & 7) == 2 && b->fill != F_U32A) {
+      // complex data lying on one axis (purely real / purely imaginary numbers, exact +0.0 on the other), in each of the
+      // three layouts: split halves (reim), blocks of 4+4 (reim4), interleaved (cplx)
+      const unsigned which = (unsigned)((t >> 8) % 6);
+      for (size_t i = 0; i < nw; i++) {
+        int z;
+        switch (which) {
+          case 0: z = i < nw / 2; break;
+          case 1: z = i >= nw / 2; break;
+          case 2: z = (i & 7) < 4; break;
+          case 3: z = (i & 7) >= 4; break;
+          case 4: z = !(i & 1); break;
+          default: z = (int)(i & 1); break;
+        }
+        if (z) w[i] = 0;
+      }
     }
   }
   if (b->zero_block) {
